@@ -14,7 +14,9 @@ func DrawSpec(t *rapid.T, label string) *Spec {
 	switch k := rapid.IntRange(0, 9).Draw(t, label+"Kind"); {
 	case k <= 4:
 		return DrawSchemaSpec(t, label, k%3)
-	case k <= 6:
+	case k == 5:
+		return DrawSchemaSpec(t, label, 3)
+	case k == 6:
 		v := gen.Value(t, gen.DocOpts{Depth: 3, Width: 3, Exp: true, StrLen: 4}, label+"V")
 		text := string(gen.Print(v, gen.RapidBlanks(t, label+"WS")))
 		if rapid.IntRange(0, 2).Draw(t, label+"Break") == 0 && len(text) > 1 {
@@ -27,7 +29,8 @@ func DrawSpec(t *rapid.T, label string) *Spec {
 	return &Spec{Kind: "regex", Text: rapid.SampledFrom([]string{"/^a+$/", "/[0-9]{2,3}/ tail", "/a\\/b/", "/x|y/", "abc", "/("}).Draw(t, label+"Regex")}
 }
 
-// DrawSchemaSpec: family 0 type graph, 1 ruled tree, 2 reference graph (recursion, missing types).
+// DrawSchemaSpec: family 0 type graph, 1 ruled tree, 2 reference graph (recursion, missing types),
+// 3 a root that inherits (allOf) from types which themselves refer to further types.
 func DrawSchemaSpec(t *rapid.T, label string, family int) *Spec {
 	sp := &Spec{Kind: "schema"}
 	switch family {
@@ -56,6 +59,38 @@ func DrawSchemaSpec(t *rapid.T, label string, family int) *Spec {
 		if ex, ok := gen.ExampleJSON(m); ok {
 			sp.Docs = append(sp.Docs, string(ex), "null", "{\"a\":1,\"zz\":2}")
 		}
+	case 3:
+		parents := rapid.Permutation([]string{"@base", "@mix", "@deep"}).Draw(t, label+"Parents")[:rapid.IntRange(1, 3).Draw(t, label+"NParents")]
+		allOf := `"` + parents[0] + `"`
+		if len(parents) > 1 || rapid.Bool().Draw(t, label+"List") {
+			allOf = "["
+			for i, p := range parents {
+				if i > 0 {
+					allOf += ", "
+				}
+				allOf += `"` + p + `"`
+			}
+			allOf += "]"
+		}
+		root := "{ // {allOf: " + allOf + "}\n"
+		switch rapid.IntRange(0, 2).Draw(t, label+"Own") {
+		case 0:
+			root += "  \"own\": @own\n"
+		case 1:
+			root += "  \"own\": @own, // {optional: true}\n  \"n\": 1\n"
+		}
+		root += "}"
+		sp.Schema = lib.Spec{Schema: root, Types: []lib.Named{
+			{Name: "@base", Text: "{\n  \"id\": @id,\n  \"tag\": @tag | @id // {optional: true}\n}"},
+			{Name: "@mix", Text: "{\n  \"m\": @id // {optional: true}\n}"},
+			{Name: "@deep", Text: "{ // {allOf: \"@leafobj\"}\n  \"d\": [@tag]\n}"},
+			{Name: "@leafobj", Text: "{\n  \"lo\": 1.5\n}"},
+			{Name: "@id", Text: "1 // {min: 0}"}, {Name: "@tag", Text: "\"t\" // {minLength: 1}"}, {Name: "@own", Text: "\"x\""},
+		}}
+		if rapid.IntRange(0, 4).Draw(t, label+"DropType") == 0 {
+			sp.Schema.Types = sp.Schema.Types[:rapid.IntRange(3, 6).Draw(t, label+"NTypes")]
+		}
+		sp.Docs = append(sp.Docs, `{"id":1,"own":"x","lo":1.5,"d":["t"],"n":1}`, `{"id":1,"tag":"t","m":2,"own":"x"}`, `{"own":"x"}`, `{"id":-1,"n":1,"lo":2.5,"d":[]}`)
 	default:
 		gc := gen.GenRefGraph(t, label+"R")
 		pg := gc.Print(nil)
